@@ -268,4 +268,48 @@ inline Msg parse_response(const std::string &s, size_t pos0, const std::string &
 	return m;
 }
 
+// Is it already certain, from the bytes s[pos..) of an unfinished request, that the message exceeds a limit?
+// max_headers counts the request line and the header section incl. line terminators; max_body the body octets
+// (Content-Length value, or the chunk sizes announced so far). 0 = no limit.
+inline bool over_limit_prefix(const std::string &s, size_t pos, size_t max_headers, size_t max_body, std::string *why) {
+	size_t e = pos;
+	bool ended = false;
+	for (;;) {	// find the empty line that ends the header section
+		size_t nl = s.find('\n', e);
+		if (nl == std::string::npos) break;
+		bool empty = nl == e || (nl == e + 1 && s[e] == '\r');
+		e = nl + 1;
+		if (empty && e - pos > 2) { ended = true; break; }
+	}
+	size_t hb = ended ? e - pos : s.size() - pos;
+	if (max_headers && hb > max_headers) { if (why) *why = std::to_string(hb) + " bytes of header section (limit " + std::to_string(max_headers) + ")"; return true; }
+	if (!ended || !max_body) return false;
+	Msg m;
+	size_t p2 = pos;
+	std::string line; bool lf;
+	if (!get_line(s, p2, line, lf)) return false;
+	if (!parse_headers(s, p2, m, true, m.headers)) return false;
+	if (m.v == REJECT) return false;
+	int n;
+	const std::string *te = find_hdr(m, "transfer-encoding", &n), *cl = find_hdr(m, "content-length", &n);
+	if (te) {
+		if (lower(trim(*te)) != "chunked") return false;
+		uint64_t total = 0;
+		for (;;) {
+			if (!get_line(s, p2, line, lf)) return false;
+			std::string t = trim(line.substr(0, line.find(';')));
+			if (t.empty() || t.size() > 15) return false;
+			uint64_t k = 0;
+			for (unsigned char c : t) { int d = c >= '0' && c <= '9' ? c - '0' : (c | 32) >= 'a' && (c | 32) <= 'f' ? (c | 32) - 'a' + 10 : -1; if (d < 0) return false; k = k * 16 + (unsigned)d; }
+			total += k;
+			if (total > max_body) { if (why) *why = "chunks announcing " + std::to_string(total) + " body bytes so far (limit " + std::to_string(max_body) + ")"; return true; }
+			if (k == 0) return false;
+			if (s.size() - p2 < k + 2) return false;
+			p2 += k + 2;
+		}
+	}
+	if (cl) { uint64_t x; if (parse_uint(trim(*cl), x) && x > max_body) { if (why) *why = "Content-Length " + std::to_string(x) + " (limit " + std::to_string(max_body) + ")"; return true; } }
+	return false;
+}
+
 }	// namespace h9
